@@ -411,7 +411,30 @@ func c01HeaderSignals() []c01Run {
 	return out
 }
 
-var c01ValueList = append(append(append(c01ValueCases(), c01StoreCases()...), c01TinyInputs()...), c01HeaderSignals()...)
+// ---- a method call whose argument reassigns (or empties, or deletes from) the receiver's location before the call happens
+func c01ReceiverCases() []c01Run {
+	var out []c01Run
+	recvs := []string{"[]", "[3, 1, 2]", "{}", "{k: 1, j: 2}", "'a,b'", "5.5", "true", "null"}
+	news := []string{"1", "'s'", "null", "[]", "{}", "true", "[9]", "{z: 1}", "5.5"}
+	calls := []string{"x.push(x = N)", "x.pop(x = N)", "x.popfirst(x = N)", "x.contains(x = N)", "x.sort(x = N)", "x.length(x = N)", "x.pluck(x = N)", "x.pluck('k', x = N)",
+		"x.split(x = N)", "x.upper(x = N)", "x.lower(x = N)", "x.floor(x = N)", "x.ceil(x = N)", "x.round(x = N)", "x.push(x.pop(x = N))", "x.push((x = N).length())",
+		"o.list.push(o.list = N)", "o.list.push(o = N)", "$.a.push($.a = N)", "$.a.push($ = N)", "arr[0].push(arr = N)", "arr[0].push(arr[0] = N)", "x.contains(x.pop())", "x.push(x.length(), x = N)"}
+	for _, r := range recvs {
+		for ni, n := range news {
+			for ci, c := range calls {
+				if (ni+ci)%3 != 0 && r != "[]" && r != "{}" {
+					continue // a third of the table for the other receivers, all of it for the empty containers
+				}
+				call := strings.ReplaceAll(c, "N", n)
+				prog := "{ x = " + r + "; o = {list: " + r + "}; arr = [" + r + "]; print 'pre'; y = " + call + "; print 'post', y, x }"
+				out = append(out, c01Run{prog: prog, input: []byte(`{"a": ` + strings.ReplaceAll(strings.ReplaceAll(r, "'", "\""), "k:", "\"k\":") + `}`), name: "receiver-reassigned:" + r + ":" + call})
+			}
+		}
+	}
+	return out
+}
+
+var c01ValueList = append(append(append(append(c01ValueCases(), c01StoreCases()...), c01TinyInputs()...), c01HeaderSignals()...), c01ReceiverCases()...)
 
 // ---- sampled
 
@@ -567,7 +590,7 @@ func c01Run_(c *Case) {
 func init() {
 	register(&Prop{
 		ID: "C01", Level: "exploration",
-		Rule:          "outcome classification only (no model): every run must end as ok / syntax / runtime / json; a recovered panic, a control-flow sentinel or any other error value, the death of the worker process, and for the binary a signal, a Go trace on stderr or a non-zero status without diagnostic are violations. Enumerated: {next, exit, break, continue, return, return v} x 16 placements (BEGIN, END, BEGINFILE, ENDFILE, pattern body, pattern expression via a match block, function called from each of the five rule kinds, match block in BEGIN / pattern rule / function, -r selector via a match block alone and after a plain selector) x {plain, while, for, for-in, nested for-in, nested if} x 4 inputs, all also through the binary; 28 nestable constructs nested 1000 / 8000 / as deep as 64 KiB allows, and 6 of them inside a self-recursive function (recursion x nesting); 22 cyclic / shared shapes (built twice) x 62 operations that walk a value (comparison, contains, sort, match, iteration, rendering, arithmetic, member chains, stores into itself) and 15 histories that shrink an array through one of two references and then walk it through the other; 25 store forms (plain, nested, through fresh names, through $, with ++ / += / --) x 18 keys of every kind (booleans, null, unset, containers, regex, function, fractions, negative, huge) on bases of every kind; every one-byte input and 50 short prefixes of byte-order marks, multi-byte sequences and JSON tokens; the six signals raised from every loop-header position / condition / print list through a match block, with and without an enclosing loop, at rule level and inside functions; all also through the binary. Sampled: whole-grammar random programs in random layouts, token-level mutations, byte-level mutations of these and of the repository's fuzz corpus, raw bytes; hostile inputs (JSONL, truncated, stray closers, nesting to 20000, garbage, empty); generated / mutated / garbage selectors; EvalExpression on JSON-typed roots; fuzzing flag on and off; step budget 50000 (budget-exhausted runs are inconclusive). Non-trivial = at least 3 interpreter steps executed (hook) or a syntax error in a text of >= 10 bytes; distinct by hash of program+selectors+input.",
+		Rule:          "outcome classification only (no model): every run must end as ok / syntax / runtime / json; a recovered panic, a control-flow sentinel or any other error value, the death of the worker process, and for the binary a signal, a Go trace on stderr or a non-zero status without diagnostic are violations. Enumerated: {next, exit, break, continue, return, return v} x 16 placements (BEGIN, END, BEGINFILE, ENDFILE, pattern body, pattern expression via a match block, function called from each of the five rule kinds, match block in BEGIN / pattern rule / function, -r selector via a match block alone and after a plain selector) x {plain, while, for, for-in, nested for-in, nested if} x 4 inputs, all also through the binary; 28 nestable constructs nested 1000 / 8000 / as deep as 64 KiB allows, and 6 of them inside a self-recursive function (recursion x nesting); 22 cyclic / shared shapes (built twice) x 62 operations that walk a value (comparison, contains, sort, match, iteration, rendering, arithmetic, member chains, stores into itself) and 15 histories that shrink an array through one of two references and then walk it through the other; 25 store forms (plain, nested, through fresh names, through $, with ++ / += / --) x 18 keys of every kind (booleans, null, unset, containers, regex, function, fractions, negative, huge) on bases of every kind; every one-byte input and 50 short prefixes of byte-order marks, multi-byte sequences and JSON tokens; the six signals raised from every loop-header position / condition / print list through a match block, with and without an enclosing loop, at rule level and inside functions; method calls on every receiver kind whose argument reassigns the receiver's own location to a value of another kind before the call happens (24 call forms x 8 receivers x 9 new values); all also through the binary. Sampled: whole-grammar random programs in random layouts, token-level mutations, byte-level mutations of these and of the repository's fuzz corpus, raw bytes; hostile inputs (JSONL, truncated, stray closers, nesting to 20000, garbage, empty); generated / mutated / garbage selectors; EvalExpression on JSON-typed roots; fuzzing flag on and off; step budget 50000 (budget-exhausted runs are inconclusive). Non-trivial = at least 3 interpreter steps executed (hook) or a syntax error in a text of >= 10 bytes; distinct by hash of program+selectors+input.",
 		NumCases:      c01Cases,
 		Run:           c01Run_,
 		MinConclusive: func(tier string) int { return 20000 },
